@@ -56,7 +56,8 @@ if [ "$MODE" = "thorough" ]; then
   # (3-6x measured); debug assertions and overflow checks stay on.
   case "$ID" in
     C05|C07|C15) FT=quantile; RUNS=1000000 ;;
-    C06|C12|C13) FT=histogram; RUNS=3000000 ;;
+    C06|C12) FT=histogram; RUNS=3000000 ;;
+    C13) FT=histogram; RUNS=1000000 ;;   # its oracle probes six iterators after every step (about 2 000 exec/s)
     C11|C14|C18|C20) FT=history; RUNS=2000000 ;;
     C01|C02|C03|C04) FT=moments; RUNS=30000 ;;
     C08|C09|C10) FT=moments; RUNS=60000 ;;
